@@ -150,6 +150,17 @@ func (fx *vFrameFix) event(spf idx.Frame, claimed idx.Frame) *dag.MutableBaseEve
 		e.SetSeq(2)
 		e.SetParents(hash.Events{sp.ID()})
 	}
+	// another parent (of validator 2) with an ARBITRARY frame: the frame rule does not depend on the frames of
+	// the other parents (forkless cause is not transitive once there is a cheater)
+	op := &dag.MutableBaseEvent{}
+	op.SetEpoch(1)
+	op.SetCreator(fx.ids[1])
+	op.SetSeq(1)
+	op.SetFrame(idx.Frame(sym.U32("otherParentFrame")))
+	op.SetLamport(9)
+	op.SetID([24]byte{0xef})
+	fx.events[op.ID()] = op
+	e.SetParents(append(e.Parents(), op.ID()))
 	e.SetID([24]byte{0xaa})
 	return e
 }
